@@ -25,7 +25,8 @@ ASSUMPTIONS = [
     "(the same LTS instantiated with one Run caller and one Stop caller) — composition by instantiation, not one global LTS",
     "contexts built by NewMPCalContextWithoutArchetype (requireRunnable panics at once) are outside the model",
 ]
-RULE = ("cases = phase scripts from one PRNG (VERIF_SEED): resource mix (1-4 leaves some with failing Close, IncMap with touched keys, HashMap, nested contexts), "
+RULE = ("cases = phase scripts from one PRNG (VERIF_SEED): resource mix (1-4 leaves some with failing Close, IncMap with touched keys, HashMap — elements with scripted failing Close —, "
+        "a Nested resource of 1-3 contexts some of which end on their own by Done/assertion before the outer run ends), "
         "plan of 1-5 attempts (commit/abort/precommit-abort, then one of done/assert/Error label/read error/precommit error/panic or an endless loop), "
         "k<=8 Stops distributed over the phases pre / race-with-Run / body i / cleanup / after, optional second Run during a body, two further Runs at the end. "
         "Non-trivial = at least 2 Stops overlapping the run (race, body or cleanup phases); distinct by canonical case text.")
@@ -39,11 +40,23 @@ def gen_case(rng, tier):
          "incmap": rng.random() < 0.5, "hashmap": rng.choice([0, 0, 1, 2, 3]),
          "nested": rng.choice([0, 0, 0, 1, 2]), "rerun_at": -1,
          "pre": 0, "race": 0, "body": [], "cleanup": 0, "after": 0, "norun": False}
+    if c["incmap"] and rng.random() < 0.5:
+        c["im_fail"] = sorted(rng.sample(range(4), rng.randint(1, 3)))      # elements whose Close returns an error
+    if c["hashmap"] and rng.random() < 0.5:
+        c["hm_fail"] = sorted(rng.sample(range(c["hashmap"]), rng.randint(1, c["hashmap"])))
+    if rng.random() < 0.25:
+        # a Nested resource of 2-3 contexts, some of which end on their own (Done / assertion) before the outer run ends
+        c["nested"] = rng.randint(2, 3)
+        c["nested_end"] = [rng.choice(["", "", "done", "assert"]) for _ in range(c["nested"])]
+        if all(x == "" for x in c["nested_end"]):
+            c["nested_end"][rng.randrange(c["nested"])] = rng.choice(["done", "assert"])
+    elif c["nested"] == 1 and rng.random() < 0.3:
+        c["nested_end"] = [rng.choice(["done", "assert"])]
     n = rng.randint(1, 5)
     plan = []
     for i in range(n):
         w = rng.choice(["commit", "commit", "commit", "abort", "pcabort"])
-        plan.append({"what": w, "touch": [rng.randint(0, 3) for _ in range(rng.randint(0, 3))] if c["incmap"] else []})
+        plan.append({"what": w, "touch": [rng.randint(0, 3) for _ in range(rng.randint(0, 4))] if c["incmap"] else []})
     endless = rng.random() < 0.45
     if not endless:
         plan.append({"what": rng.choice(ENDS), "touch": [rng.randint(0, 3)] if c["incmap"] and rng.random() < 0.5 else []})
@@ -104,9 +117,12 @@ def nl(xs):
 def cfg_to_coq(c):
     atts = ["mkAtt 0 %s %s" % (WHAT[a["what"]], nl(a.get("touch", []) if c.get("incmap") else [])) for a in c["plan"]]
     leaves = ["false"] + [vlib.coq_bool(b) for b in c.get("leaves", [])]
-    return "(mkCfg (plan_of %s) %s %s %d %s %d (fun _ => 0))" % (
+    nest_err = [i for i, x in enumerate(c.get("nested_end", [])) if x == "assert"]
+    eerr = ("(fun x => match x with IInc k => existsb (Nat.eqb k) %s | IHash i => existsb (Nat.eqb i) %s "
+            "| INest i => existsb (Nat.eqb i) %s | ILeaf _ => false end)" % (nl(c.get("im_fail", [])), nl(c.get("hm_fail", [])), nl(nest_err)))
+    return "(mkCfg (plan_of %s) %s %s %d %s %d (fun _ => 0) %s)" % (
         vlib.coq_list(atts), vlib.coq_bool(c.get("pre_panic", False)), vlib.coq_list(leaves), c.get("hashmap", 0),
-        vlib.coq_bool(c.get("incmap", False)), c.get("nested", 0))
+        vlib.coq_bool(c.get("incmap", False)), c.get("nested", 0), eerr)
 
 
 def race_mode(r):
@@ -140,6 +156,10 @@ def obs_to_coq(c, r):
     for k in keys:
         incc.append(sum(v for name, v in r["closes"].items() if name.startswith("im[%d]#" % k)))
     nestc = [r["closes"].get("ne[%d].nw" % i, 0) for i in range(c.get("nested", 0))]
+    if not r["started"]:
+        # a nested context that ended on its own closed its resource itself; the outer run never closed anything
+        ne = c.get("nested_end", [])
+        nestc = [0 if (i < len(ne) and ne[i]) else x for i, x in enumerate(nestc)]
     refused = sum(1 for x in r["rerun"] if x == "refused")
     notstarted = sum(1 for x in r["rerun"] if x == "nil-norun")
     if r["run_returned"] and not r["started"] and not r["run_class"]:
@@ -195,7 +215,11 @@ def oracle(c, r):
         got = set(r["run_class"])
         lw = "panic" if c.get("pre_panic") else r.get("last_what", "")
         want = set(EXPECT.get(lw, set()))
-        if lw != "panic" and any(c.get("leaves", [])):
+        close_fails = (any(c.get("leaves", []))
+                       or any(k in c.get("im_fail", []) for k in (r.get("created_order") or []))
+                       or any(i < c.get("hashmap", 0) for i in c.get("hm_fail", []))
+                       or any(x == "assert" for x in c.get("nested_end", [])[:c.get("nested", 0)]))
+        if lw != "panic" and close_fails:
             want.add("close")
         if got != want:
             fails.append(("run-result-class-" + (lw or "none"), "the run's last attempt was %r but Run reported %s (expected %s)" % (lw, sorted(got), sorted(want))))
@@ -279,6 +303,8 @@ def run(ctx):
         dist["with_hashmap"] += 1 if c.get("hashmap") else 0
         dist["with_nested"] += 1 if c.get("nested") else 0
         dist["with_failing_close"] += 1 if any(c.get("leaves", [])) else 0
+        dist["with_failing_element_close"] = dist.get("with_failing_element_close", 0) + (1 if c.get("im_fail") or c.get("hm_fail") else 0)
+        dist["with_early_ending_nested_context"] = dist.get("with_early_ending_nested_context", 0) + (1 if any(c.get("nested_end", [])) else 0)
         dist["rerun_during_body"] += 1 if c.get("rerun_at", -1) >= 0 else 0
         dist["max_stops"] = max(dist["max_stops"], r["stops_issued"])
     ctx.extra["input_distribution"] = dist
